@@ -36,100 +36,6 @@ Proof.
   destruct (Nat.eq_dec x y) as [->|Hn]; auto.
 Qed.
 
-(** * Coupling between the state and the ledger.
-    [P x]: a terminal report for [x] has been delivered to the ledger but not yet
-    processed by the state; [Q x]: likewise a FINISHED report. *)
-Record J (P Q : nat -> Prop) (s : st) (L : base) : Prop := {
-  j_live : forall x j, In (x, j) (live L) <-> In x (inprog s) /\ j = lastjob s x /\ ~ P x;
-  j_nd : NoDup (map fst (live L));
-  j_succ1 : forall x, In x (completed s) -> In x (succ L);
-  j_succ2 : forall x, In x (succ L) -> In x (completed s) \/ Q x;
-  j_cseen : cseen L = canceled s }.
-
-Definition tpend (rs : list (nat * option State)) (x : nat) : Prop :=
-  exists v, In (x, Some v) rs /\ terminal v = true.
-Definition pfin (rs : list (nat * option State)) (x : nat) : Prop := In (x, Some FINISHED) rs.
-Definition none (_ : nat) : Prop := False.
-
-Lemma J_ext (P Q P' Q' : nat -> Prop) s L : (forall x, P x <-> P' x) -> (forall x, Q x -> Q' x) -> J P Q s L -> J P' Q' s L.
-Proof.
-  intros HP HQ [A B C D E]. constructor; auto.
-  - intros x j. rewrite A, HP. tauto.
-  - intros x Hx. destruct (D x Hx); auto.
-Qed.
-
-(** * Per-event conditions that keep the verdict codes 1, 3, 4, 40, 41, 7, 71 silent *)
-Definition evA (c : cfg) (g : graph) (L : base) (e : event) : Prop :=
-  match e with
-  | ECancel js => same_jobs js (live L) = true
-  | ECheck js => same_jobs js (live L) = true
-  | EGen _ => True
-  | ESubmit x k sched res =>
-      subset (parents (attr g x)) (succ L) = true /\ cseen L = false /\
-      match res with
-      | None => True
-      | Some _ => live_of x L = false /\ mem x (succ L) = false /\
-                  (sched = false \/ throttle c = 0 \/ S (length (live L)) <= throttle c)
-      end
-  end.
-
-Fixpoint evsA (c : cfg) (g : graph) (p : pin) (L : base) (es : list event) : Prop :=
-  match es with
-  | [] => True
-  | e :: es' => evA c g L e /\ evsA c g p (step_base c g p L e) es'
-  end.
-
-Lemma evsA_app c g p es1 : forall L es2,
-  evsA c g p L (es1 ++ es2) <-> evsA c g p L es1 /\ evsA c g p (fold_left (step_base c g p) es1 L) es2.
-Proof.
-  induction es1 as [|e es1 IH]; intros L es2; cbn; [tauto|]. rewrite IH. tauto.
-Qed.
-
-Definition famA : list nat := [1; 3; 4; 40; 41; 7; 71].
-
-Lemma ck_In b k j : In j (ck b k) <-> b = false /\ j = k.
-Proof. unfold ck. destruct b; cbn; intuition congruence. Qed.
-
-Lemma evA_flags c g p L e k : evA c g L e -> In k famA -> ~ In k (flags_ev c g p L e).
-Proof.
-  intros H Hk Hin. destruct e as [js|js|x|x kd sched res]; cbn [flags_ev evA] in H, Hin.
-  - rewrite in_app_iff, !ck_In in Hin. destruct Hin as [[A ->]|[A ->]]; [congruence|].
-    cbn in Hk. intuition discriminate.
-  - rewrite in_app_iff, !ck_In in Hin. destruct Hin as [[A ->]|[A ->]]; [|congruence].
-    cbn in Hk. intuition discriminate.
-  - rewrite ck_In in Hin. destruct Hin as [_ ->]. cbn in Hk. intuition discriminate.
-  - destruct H as [H1 [H2 H3]].
-    repeat (rewrite in_app_iff in Hin; destruct Hin as [Hin|Hin]);
-      try (rewrite ck_In in Hin; destruct Hin as [A ->]; cbn in Hk;
-           first [ congruence | (rewrite H2 in A; discriminate) | (intuition discriminate) ]).
-    + destruct kd.
-      * rewrite ck_In in Hin. destruct Hin as [_ ->]. cbn in Hk. intuition discriminate.
-      * rewrite in_app_iff, !ck_In in Hin. destruct Hin as [[_ ->]|[_ ->]]; cbn in Hk; intuition discriminate.
-    + destruct res as [j|]; [|destruct Hin].
-      destruct H3 as [H3 [H4 H5]].
-      rewrite !in_app_iff, !ck_In in Hin. destruct Hin as [[A ->]|[[A ->]|[A ->]]].
-      * rewrite H3 in A. discriminate.
-      * rewrite H4 in A. discriminate.
-      * rewrite !orb_false_iff in A. destruct A as [[A1 A2] A3].
-        apply negb_false_iff in A1. apply Nat.eqb_neq in A2. apply Nat.leb_gt in A3.
-        destruct H5 as [H5|[H5|H5]]; [congruence | congruence | lia].
-Qed.
-
-(** * The ledger as a function of the events emitted so far in the current poll *)
-Section Poll.
-Variables (c : cfg) (g : graph) (p : pin) (L0 : base).
-
-Definition led (s : st) : base := fold_left (step_base c g p) (rev (evs s)) L0.
-Definition clean (s : st) : Prop := evsA c g p L0 (rev (evs s)).
-
-Lemma led_emit e s : led (emit e s) = step_base c g p (led s) e.
-Proof. unfold led, emit. cbn. rewrite fold_left_app. reflexivity. Qed.
-
-Lemma clean_emit e s : clean (emit e s) <-> clean s /\ evA c g (led s) e.
-Proof. unfold clean, emit, led. cbn. rewrite evsA_app. cbn. tauto. Qed.
-
-End Poll.
-
 (** * Frame facts: how the elementary combinators touch the records *)
 Lemma getrec_set_status_eq x v s : x < length (recs s) ->
   getrec (rec_set_status x v s) x = {| status := v; jobs := jobs (getrec s x); restarts := restarts (getrec s x) |}.
@@ -410,141 +316,3 @@ Proof.
   apply IH; [apply Inv_cancelled_mark; auto; discriminate|].
   intros y Hy. apply H. right. exact Hy.
 Qed.
-
-(** * The submission retry loop *)
-Definition core_eq (L L' : base) : Prop := live L' = live L /\ succ L' = succ L /\ cseen L' = cseen L.
-Lemma core_eq_refl L : core_eq L L. Proof. repeat split. Qed.
-Lemma core_eq_trans A B C : core_eq A B -> core_eq B C -> core_eq A C.
-Proof. unfold core_eq. intuition congruence. Qed.
-
-Section Poll2.
-Variables (c : cfg) (g : graph) (p : pin) (L0 : base).
-Notation ledS := (led c g p L0).
-Notation cleanS := (clean c g p L0).
-
-Lemma led_frame s s' : evs s' = evs s -> ledS s' = ledS s.
-Proof. unfold led. intros ->. reflexivity. Qed.
-Lemma clean_frame s s' : evs s' = evs s -> cleanS s' <-> cleanS s.
-Proof. unfold clean. intros ->. tauto. Qed.
-
-Definition submit_pre (x : nat) (s : st) : Prop :=
-  subset (parents (attr g x)) (succ (ledS s)) = true /\ cseen (ledS s) = false /\
-  live_of x (ledS s) = false /\ mem x (succ (ledS s)) = false /\
-  (scheduled (attr g x) = false \/ throttle c = 0 \/ S (length (live (ledS s))) <= throttle c).
-
-Lemma next_sub_frame s : let '(b, s') := next_sub s in
-  same_sets s s' /\ recs s' = recs s /\ evs s' = evs s /\ next_job s' = next_job s.
-Proof. unfold next_sub. destruct (subs s); cbn; repeat split. Qed.
-
-Lemma submit_attempts_spec x restart : forall n s,
-  x < length (recs s) -> cleanS s -> submit_pre x s ->
-  let '(ok, s') := submit_attempts g x restart n s in
-  same_sets s s' /\ length (recs s') = length (recs s) /\ cleanS s' /\
-  (forall y, status (getrec s y) <> INITIALIZED -> status (getrec s' y) <> INITIALIZED) /\
-  (forall y, y <> x -> lastjob s' y = lastjob s y) /\
-  (ok = false -> lastjob s' x = lastjob s x /\ core_eq (ledS s) (ledS s')) /\
-  (ok = true ->
-     (restart = false -> status (getrec s' x) <> INITIALIZED) /\
-     cseen (ledS s') = cseen (ledS s) /\
-     (if scheduled (attr g x)
-      then live (ledS s') = live (ledS s) ++ [(x, lastjob s' x)] /\ succ (ledS s') = succ (ledS s)
-      else live (ledS s') = live (ledS s) /\ succ (ledS s') = sadd x (succ (ledS s)))).
-Proof.
-  induction n as [|n IH]; intros s Hx Hc Hp; cbn [submit_attempts].
-  - splits; auto; try discriminate; try apply same_sets_refl. intros _. split; [reflexivity|apply core_eq_refl].
-  - set (s1 := if restart then emit (EGen x) s else rec_set_status x PENDING s).
-    set (s2 := if scheduled (attr g x) then s1 else rec_set_status x RUNNING s1).
-    assert (F1 : same_sets s s1 /\ length (recs s1) = length (recs s) /\
-                 (forall y, status (getrec s y) <> INITIALIZED -> status (getrec s1 y) <> INITIALIZED) /\
-                 (forall y, lastjob s1 y = lastjob s y) /\ ledS s1 = ledS s /\ (cleanS s1 <-> cleanS s) /\
-                 (restart = false -> status (getrec s1 x) <> INITIALIZED)).
-    { subst s1. destruct restart.
-      - splits; auto; try discriminate;
-          try (rewrite led_emit; reflexivity); try (rewrite clean_emit; cbn; tauto).
-      - splits; auto.
-        + apply len_recs_set_status.
-        + intros y Hy. destruct (status_set_status x y PENDING s) as [->| ->]; auto; discriminate.
-        + intros y. apply lastjob_set_status.
-        + intros _. rewrite getrec_set_status_eq by auto. cbn. discriminate. }
-    destruct F1 as (A1 & A2 & A3 & A4 & A5 & A6 & A7).
-    assert (F2 : same_sets s s2 /\ length (recs s2) = length (recs s) /\
-                 (forall y, status (getrec s y) <> INITIALIZED -> status (getrec s2 y) <> INITIALIZED) /\
-                 (forall y, lastjob s2 y = lastjob s y) /\ ledS s2 = ledS s /\ (cleanS s2 <-> cleanS s) /\
-                 (restart = false -> status (getrec s2 x) <> INITIALIZED)).
-    { subst s2. destruct (scheduled (attr g x)); [exact (conj A1 (conj A2 (conj A3 (conj A4 (conj A5 (conj A6 A7))))))|].
-      splits; auto.
-      - eapply same_sets_trans; [exact A1 | apply same_sets_set_status].
-      - rewrite len_recs_set_status. exact A2.
-      - intros y Hy. destruct (status_set_status x y RUNNING s1) as [->| ->]; auto; discriminate.
-      - intros y. rewrite lastjob_set_status. apply A4.
-      - tauto.
-      - tauto.
-      - intros _. rewrite getrec_set_status_eq by lia. cbn. discriminate. }
-    clearbody s2. clear A1 A2 A3 A4 A5 A6 A7 s1.
-    destruct F2 as (A1 & A2 & A3 & A4 & A5 & A6 & A7).
-    pose proof (next_sub_frame s2) as NS. destruct (next_sub s2) as [b s3].
-    destruct NS as (B1 & B2 & B3 & B4).
-    assert (L3 : ledS s3 = ledS s) by (rewrite <- A5; apply led_frame; exact B3).
-    assert (C3 : cleanS s3) by (apply (clean_frame s2 s3 B3); tauto).
-    assert (LJ3 : forall y, lastjob s3 y = lastjob s y).
-    { intros y. rewrite <- A4. unfold lastjob, getrec. rewrite B2. reflexivity. }
-    assert (ST3 : forall y, status (getrec s3 y) = status (getrec s2 y)).
-    { intros y. unfold getrec. rewrite B2. reflexivity. }
-    destruct Hp as (P1 & P2 & P3 & P4 & P5).
-    destruct b.
-    + (* successful submission *)
-      set (j := next_job s3).
-      set (s4 := rec_push_job x j (set_next_job s3 (S j))).
-      set (e := ESubmit x (if restart then Restart else Main) (scheduled (attr g x)) (Some j)).
-      assert (LJx : lastjob (emit e s4) x = j).
-      { change (lastjob (emit e s4) x) with (lastjob s4 x). subst s4.
-        apply lastjob_push_job_eq. sp. rewrite B2. lia. }
-      splits.
-      * eapply same_sets_trans; [exact A1|]. eapply same_sets_trans; [exact B1|]. splits.
-      * sp. unfold rec_push_job. sp. rewrite length_upd, B2. exact A2.
-      * rewrite clean_emit. split.
-        { apply (clean_frame s3); [reflexivity | exact C3]. }
-        { assert (E : ledS s4 = ledS s) by (rewrite <- L3; apply led_frame; reflexivity).
-          rewrite E. cbn [evA]. splits; auto. }
-      * intros y Hy. change (getrec (emit e s4) y) with (getrec s4 y). subst s4.
-        rewrite status_push_job. change (getrec (set_next_job s3 (S j)) y) with (getrec s3 y).
-        rewrite ST3. auto.
-      * intros y Hy. change (lastjob (emit e s4) y) with (lastjob s4 y). subst s4.
-        rewrite lastjob_push_job_neq by auto. apply LJ3.
-      * discriminate.
-      * discriminate.
-      * intros Hr. change (getrec (emit e s4) x) with (getrec s4 x). subst s4.
-        rewrite status_push_job. change (getrec (set_next_job s3 (S j)) x) with (getrec s3 x).
-        rewrite ST3. auto.
-      * rewrite led_emit. assert (E : ledS s4 = ledS s) by (rewrite <- L3; apply led_frame; reflexivity).
-        rewrite E. subst e. cbn [step_base]. destruct (scheduled (attr g x)); reflexivity.
-      * rewrite led_emit. assert (E : ledS s4 = ledS s) by (rewrite <- L3; apply led_frame; reflexivity).
-        rewrite E, LJx. subst e. cbn [step_base]. destruct (scheduled (attr g x)); split; reflexivity.
-    + (* failed attempt: recurse *)
-      set (e := ESubmit x (if restart then Restart else Main) (scheduled (attr g x)) None).
-      assert (L4 : core_eq (ledS s) (ledS (emit e s3))).
-      { rewrite led_emit, L3. subst e. cbn [step_base]. splits. }
-      assert (C4 : cleanS (emit e s3)).
-      { rewrite clean_emit. split; [exact C3|]. rewrite L3. subst e. cbn [evA]. auto. }
-      destruct L4 as (D1 & D2 & D3).
-      specialize (IH (emit e s3)).
-      assert (Hx4 : x < length (recs (emit e s3))) by (sp; rewrite B2; lia).
-      assert (Hp4 : submit_pre x (emit e s3)).
-      { unfold submit_pre, live_of. rewrite D1, D2, D3. splits; auto. }
-      specialize (IH Hx4 C4 Hp4).
-      destruct (submit_attempts g x restart n (emit e s3)) as [ok s'].
-      destruct IH as (E1 & E2 & E3 & E4 & E5 & E6 & E7).
-      splits.
-      * eapply same_sets_trans; [exact A1|]. eapply same_sets_trans; [exact B1|]. exact E1.
-      * rewrite E2. sp. rewrite B2. exact A2.
-      * exact E3.
-      * intros y Hy. apply E4. change (getrec (emit e s3) y) with (getrec s3 y). rewrite ST3. auto.
-      * intros y Hy. rewrite E5 by auto. change (lastjob (emit e s3) y) with (lastjob s3 y). apply LJ3.
-      * destruct (E6 H) as [F1 F2]. rewrite F1. change (lastjob (emit e s3) x) with (lastjob s3 x). apply LJ3.
-      * destruct (E6 H) as [F1 F2]. eapply core_eq_trans; [|exact F2]. splits; auto.
-      * intros Hr. destruct (E7 H) as [F1 _]. auto.
-      * destruct (E7 H) as (_ & F2 & _). rewrite F2. exact D3.
-      * destruct (E7 H) as (_ & _ & F3). rewrite D1, D2 in F3. exact F3.
-Qed.
-
-End Poll2.
